@@ -404,9 +404,11 @@ func runRange(worker string, base Job, from, count int, timeout time.Duration) (
 		j.From, j.Count, j.Stride = next, end-next, 1
 		lines, stderr, done, timedOut := runJob(worker, j, 0, timeout)
 		inflight := -1
+		var inflightCase *Case
 		for _, l := range lines {
 			if l.Start != nil {
 				inflight = *l.Start
+				inflightCase = l.Record.Case
 				continue
 			}
 			if l.Cand != nil {
@@ -426,7 +428,7 @@ func runRange(worker string, base Job, from, count int, timeout time.Duration) (
 		}
 		if inflight >= 0 {
 			// the worker died while this case was running: panic in some goroutine / runtime fatal error / race report
-			recs = append(recs, Record{I: inflight, Verdict: "panic", Clause: crashSignature(stderr), Detail: tail(stderr, 3000)})
+			recs = append(recs, Record{I: inflight, Verdict: "panic", Clause: crashSignature(stderr), Detail: tail(stderr, 3000), Case: inflightCase})
 			next = inflight + 1
 		} else if len(lines) == 0 {
 			return recs, "worker produced no output; stderr tail:\n" + tail(stderr, 1500)
